@@ -44,6 +44,7 @@ PROFILES = {
     "unionh4": prof2("MovesUnionH", 4, [[1, 3], [3, 1]]),
     "unionc5": prof2("MovesUnionC", 5, [[1, 3]]),
     "unions4": prof2("MovesUnionS", 4, [[1, 3]]),
+    "unionj4": prof2("MovesUnionJ", 4, [[1, 3], [6, 3]]),
     "core2": prof("MC_Core", "MovesCore", 2),
     "core3": prof("MC_Core", "MovesCore", 3, srcs=[1, 6]),
     "agg3": prof("MC_Focus", "MovesAgg", 3),
@@ -96,7 +97,7 @@ CHECKS = {
     "C07": dict(
         level="model_checking",
         clauses=GEN_CLAUSES_SPEC | {"errclass"},
-        phases=dict(quick=[dict(kind="argspace", verbs=["union"]), dict(profile="union2"), dict(profile="unionh4"), dict(profile="unionc5"), dict(profile="unions4")], thorough=[dict(kind="argspace", verbs=["union"], ucols=["a", "b", "c", "d"]), dict(profile="union2"), dict(profile="union3"), dict(profile="unionh4"), dict(profile="unionc5"), dict(profile="unions4")]),
+        phases=dict(quick=[dict(kind="argspace", verbs=["union"]), dict(profile="union2"), dict(profile="unionh4"), dict(profile="unionc5"), dict(profile="unions4"), dict(profile="unionj4")], thorough=[dict(kind="argspace", verbs=["union"], ucols=["a", "b", "c", "d"]), dict(profile="union2"), dict(profile="union3"), dict(profile="unionh4"), dict(profile="unionc5"), dict(profile="unions4"), dict(profile="unionj4")]),
     ),
     "C08": dict(
         level="model_checking",
